@@ -100,6 +100,8 @@ open Cat
 structure CatState where
   st : State := {}
   slots : List (Option Name) := [none, none, none]
+  /-- the committed catalog when the held read transaction began -/
+  snapshot : Catalog := []
 
 def catAnswer (obs : List String) (m : String) (what : String) : String :=
   if String.intercalate " " obs = m then "ok" else s!"DIFF {what} model={m} impl={String.intercalate " " obs}"
@@ -129,6 +131,23 @@ def withContents (cs : CatState) (slot : String)
         let r := f info info.contents
         ({ cs with st := modifyContents cs.st n (fun _ => r.1) }, catAnswer obs r.2 what)
 
+/-- `list_tables` of a read transaction on the catalog it pins -/
+def readList (cs : CatState) (c : Catalog) (kind : String) (obs : List String) : CatState × String :=
+  match parseKind kind with
+  | some k => (cs, catAnswer obs (namesRepr (listOf c k)) "rlist")
+  | none => (cs, "bad-op")
+
+/-- typed open + full read of a read transaction on the catalog it pins -/
+def readTyped (cs : CatState) (c : Catalog) (name kind kt vt : String) (obs : List String) : CatState × String :=
+  match parseReq kind kt vt with
+  | some r =>
+    let m :=
+      match readOpen c (nameOf name) r, lookup c (nameOf name) with
+      | .ok, some info => s!"{info.contents.length} {hex16 (rowsHash info.contents)}"
+      | e, _ => outcomeTag e
+    (cs, catAnswer obs m "ropen")
+  | none => (cs, "bad-op")
+
 def catStep (cs : CatState) (req obs : List String) : CatState × String :=
   match req with
   | "new" :: _ => ({}, "ok")
@@ -146,7 +165,8 @@ def catStep (cs : CatState) (req obs : List String) : CatState × String :=
       let c := insert cs.st.committed (nameOf name) info
       ({ cs with st := { committed := c, staged := c, openNames := [] } }, "ok")
     | _, _, _, _ => (cs, "bad-op")
-  | ["begin"] | ["reopen"] | ["drain"] => (cs, "ok")
+  | ["begin"] | ["reopen"] | ["drain"] | ["rrelease"] => (cs, "ok")
+  | ["rhold"] => ({ cs with snapshot := cs.st.committed }, "ok")
   | "stat" :: _ => (cs, "ok")
   | ["open", slot, name, kind, kt, vt] =>
     match slot.toNat?, parseReq kind kt vt with
@@ -218,21 +238,12 @@ def catStep (cs : CatState) (req obs : List String) : CatState × String :=
     match parseKind kind with
     | some k => (cs, catAnswer obs (namesRepr (list cs.st k)) "list")
     | none => (cs, "bad-op")
-  | ["commit"] => ({ st := commit cs.st }, catAnswer obs "ok" "commit")
-  | ["abort"] => ({ st := abort cs.st }, catAnswer obs "ok" "abort")
-  | ["rlist", kind] =>
-    match parseKind kind with
-    | some k => (cs, catAnswer obs (namesRepr (listOf cs.st.committed k)) "rlist")
-    | none => (cs, "bad-op")
-  | ["ropen", name, kind, kt, vt] =>
-    match parseReq kind kt vt with
-    | some r =>
-      let m :=
-        match readOpen cs.st.committed (nameOf name) r, lookup cs.st.committed (nameOf name) with
-        | .ok, some info => s!"{info.contents.length} {hex16 (rowsHash info.contents)}"
-        | e, _ => outcomeTag e
-      (cs, catAnswer obs m "ropen")
-    | none => (cs, "bad-op")
+  | ["commit"] => ({ cs with st := commit cs.st, slots := [none, none, none] }, catAnswer obs "ok" "commit")
+  | ["abort"] => ({ cs with st := abort cs.st, slots := [none, none, none] }, catAnswer obs "ok" "abort")
+  | ["rlist", kind] => readList cs cs.st.committed kind obs
+  | ["hlist", kind] => readList cs cs.snapshot kind obs
+  | ["ropen", name, kind, kt, vt] => readTyped cs cs.st.committed name kind kt vt obs
+  | ["hopen", name, kind, kt, vt] => readTyped cs cs.snapshot name kind kt vt obs
   | ["ruopen", name, kind] =>
     match parseKind kind with
     | some k =>
